@@ -4,6 +4,23 @@ import json, os, glob, re
 V = os.path.dirname(os.path.dirname(os.path.abspath(__file__)))
 rows = []; index = []
 NOTES = {
+ 'C01-b2': 'wave 2; detected after the GreensFunction copy constructor was put under contract (round 3) in response to this change',
+ 'C09-b1': 'wave 2; detected after the EnsembleAverage copy constructor was put under contract (round 3)',
+ 'C14-b2': 'wave 2; detected by the Susceptibility copy-constructor contract (round 3)',
+ 'C02-b1': 'wave 2; first UNDECIDED (the 3-argument call broke extraction); detected after a model of the 3-argument TermList call operator was added (records the documented default 1e-16)',
+ 'C02-b2': 'wave 2; detected after ResonantTerm::IsNegligible was pinned (round 3)',
+ 'C04-b1': 'wave 2; first UNDECIDED (call of another NupNdown overload had no stub); detected after stubs for all factory overloads were added (completeness obligation of addCoulombS)',
+ 'C05-b2': 'wave 2; detected after the two-argument N/Sz::getMatrixElement were put under contract (round 3)',
+ 'C07-b1': 'wave 2; UNDECIDED (exit 2): the hash generator type was replaced by a hand-written class -- no model, extraction break',
+ 'C07-b2': 'wave 2; UNDECIDED (exit 2): new call to floor() inside StatesClassification::compute -- no model, extraction break',
+ 'C10-b1': 'wave 2; UNDECIDED (exit 2): sparseView/prune called with an extra reference argument -- no model for that overload',
+ 'C04-b2': 'wave 2; C04 check passes (Operator is a recording monitor there); detected by the C05 bounded normal-ordering harnesses',
+
+ 'C15-b1': 'wave 2; first NOT detected (the Vertex4 constructor was not under contract: reference members bound crosswise)',
+ 'C16-b1': 'wave 2; first NOT detected (the MPIMaster constructors were not under contract: Master_wf was read off the constructor)',
+ 'C16-b2': 'wave 2; first NOT detected (same gap: Comm of the master was not tied to the constructor argument)',
+ 'C18-b1': 'wave 2; UNDECIDED (exit 2): std::map::lower_bound had no model',
+
  'C16-2': 'not detected: needs a message to arrive between the posted receive and the member initialisation -- a schedule, outside the sequential per-rank model (C16 claim says so)',
  'C16-1': 'UNDECIDED: the h_order_worker harness runs out of 30 GB of solver memory on the changed code (no obligation passes or fails)',
  'C05-1': 'UNDECIDED (exit 2): the function was restructured (new call ket.count(), one loop removed) -- extraction break, by design not a violation',
